@@ -333,7 +333,17 @@ def fmt_rewrite(job, skip_ranges, notes):
             raise Lost('%s: format! at line %d does not start with a plain string literal' % (job.rel, rustlex.line_of(job.src, t.pos)))
         lit_tok = toks[args[0][0]].text
         parts = parse_format_literal(rust_unescape(lit_tok))
-        pos_args = [job.src[toks[a].pos:toks[b - 1].end] for (a, b) in args[1:]]
+        def arg_text(a, b):
+            # text of one argument with the edits that fall inside it (hoists, normalisations) already applied
+            lo_, hi_ = toks[a].pos, toks[b - 1].end
+            inner = sorted([e for e in job.edits if lo_ <= e[0] and e[1] <= hi_ and e[0] < e[1] or (lo_ < e[0] < hi_)], key=lambda e: (e[0], e[4]))
+            out, p = [], lo_
+            for e in inner:
+                out.append(job.src[p:e[0]]); out.append(e[2]); p = e[1]
+                job.edits.remove(e)
+            out.append(job.src[p:hi_])
+            return ''.join(out)
+        pos_args = [arg_text(a, b) for (a, b) in args[1:]]
         n_pos = sum(1 for p in parts if p[0] == 'arg' and p[1] is None)
         if n_pos != len(pos_args) or any(p[0] == 'arg' and p[1] is not None and p[1].isdigit() for p in parts):
             raise Lost('%s: format! at line %d: positional arguments do not match the literal' % (job.rel, rustlex.line_of(job.src, t.pos)))
@@ -416,7 +426,7 @@ def payload_text(d, tags_out, rename=None):
     return '\n'.join(lines) + '\n', origins
 
 
-def annotate(repo, contracts, out):
+def annotate(repo, contracts, out, vacuity=False):
     global BASELINE_SIGS
     bs = os.path.join(os.path.dirname(os.path.abspath(contracts[0])), 'baseline_sigs.json') if contracts else None
     BASELINE_SIGS = json.load(open(bs)) if bs and os.path.exists(bs) else {}
@@ -654,6 +664,18 @@ def annotate(repo, contracts, out):
                 notes['lost_optional'].append(str(e))
                 continue
             raise
+
+    if vacuity:
+        # vacuity pass: `assert(false)` at the start of every function under contract must FAIL; where it is
+        # proved, the preconditions / broadcast axioms in scope are contradictory and every proof there is void
+        seen = set()
+        for rel, job in jobs.items():
+            for f in job.fns:
+                if f.qual in notes['under_contract'] and f.body_open >= 0 and f.qual not in notes['external_body'] and (rel, f.qual) not in seen:
+                    seen.add((rel, f.qual))
+                    p = job.toks[f.body_open].end
+                    job.edits.append((p, p, '\n        proof { assert(false); }\n', [dict(kind='vacuity', fn=f.qual)], 10 ** 8))
+        notes['vacuity_probes'] = sorted(q for (_, q) in seen)
 
     # text layer: rewrite format! calls in verified functions of files that asked for it
     fmt_helper_text = {}
